@@ -13,10 +13,14 @@ ID = "C01"
 LEVEL = "proof"
 MODEL_TARGETS = ["theories/Analysis.vo", "theories/Calculus.vo"]
 TRANSLATORS = ["semiring", "rules"]
-LEVEL_TEXT = ("Theorems in coq/props/C01.v about the executable Coq model of Analysis.func (Analysis.v, Rel.v, Poly.v) and the calculus "
-              "specification (Calculus.v) built on rule/side-condition tables regenerated from analysis.py/relation.py on every run; the model is "
-              "tied to the code by structural comparison of degree, variables, polynomial matrix and valid-vector set on generated programs, and "
-              "the real tool is compared with an independent calculus oracle on all 3^k choice vectors (cells, valid set, bound of first choice).")
+LEVEL_TEXT = ("Machine-checked theorem (coq/props/C01.v, closed under the global context): for EVERY function of the typed fragment that the executable "
+              "Coq model of Analysis.func reports as not infinite -- any nesting depth, any number of variables and sites, both early-stop settings -- "
+              "the reported degree is the number k of binary-operation sites, the choice object accepts exactly the vectors of 3^k at which the mwp "
+              "calculus (Calculus.v, rule table and side conditions regenerated from analysis.py/relation.py on every run) has a derivation, and the matrix "
+              "obtained by applying such a vector to the reported relation IS the derived matrix (nothing missing, nothing extra); bound = columns of "
+              "that matrix (C01_bound_reads_derived_columns). The model is tied to the code on every run by structural comparison of degree, variables, "
+              "polynomial matrix and valid-vector set on generated programs, by unit-level streams (Polynomial.equal, Relation.fixpoint on chain bodies), "
+              "by a cross-check of the reader against the real dispatch, and the real tool is compared with an independent calculus oracle on all 3^k vectors.")
 LEVEL_NOTE = ("Trusted: Coq kernel; translators rules/semiring; the reader tools/cread.py (pycparser AST -> typed statements, dispatch conditions only); "
               "generators. The Choices object is compared semantically (accepted vectors), its internal box representation is property C04's.")
 TECHNIQUE = "Coq proof over an executable model + rule-table translator + differential correspondence (vm_compute) + exhaustive-vector calculus oracle"
